@@ -30,6 +30,27 @@ Proof. apply never_alters_of_wf; vm_compute; reflexivity. Qed.
 Theorem C16_never_alters_reids : never_alters gen_reids.
 Proof. apply never_alters_of_wf; vm_compute; reflexivity. Qed.
 
+(* consequence: whatever byte string the checked encoder hands out stands for exactly one
+   program of the flavour - two programs that are both accepted never share their bytes, so
+   no accepted program can be "altered into" another accepted one either *)
+Definition accepted_injective (t : list row) : Prop :=
+  forall s s' bs, Forall (fun c => In (fst c) t) (s_body s) -> Forall (fun c => In (fst c) t) (s_body s') ->
+    encode_checked gen_header s = Some bs -> encode_checked gen_header s' = Some bs -> s = s'.
+
+Lemma accepted_injective_of_never_alters t : never_alters t -> accepted_injective t.
+Proof.
+  intros N s s' bs H H' E E'.
+  pose proof (N s bs H E) as D. pose proof (N s' bs H' E') as D'.
+  rewrite D in D'. now inversion D'.
+Qed.
+
+Theorem C16_accepted_injective_vanilla : accepted_injective gen_vanilla.
+Proof. exact (accepted_injective_of_never_alters _ C16_never_alters_vanilla). Qed.
+Theorem C16_accepted_injective_nv : accepted_injective gen_nv.
+Proof. exact (accepted_injective_of_never_alters _ C16_never_alters_nv). Qed.
+Theorem C16_accepted_injective_reids : accepted_injective gen_reids.
+Proof. exact (accepted_injective_of_never_alters _ C16_never_alters_reids). Qed.
+
 (* the accepted ranges are the ones the property names: derived from the
    regenerated layouts being the reference layout (register index 0..15,
    immediate 0..255, integer/address -2^31..2^31-1, app id 0..65535) *)
@@ -52,3 +73,6 @@ Print Assumptions C16_rejects.
 Print Assumptions C16_never_alters_vanilla.
 Print Assumptions C16_never_alters_nv.
 Print Assumptions C16_never_alters_reids.
+Print Assumptions C16_accepted_injective_vanilla.
+Print Assumptions C16_accepted_injective_nv.
+Print Assumptions C16_accepted_injective_reids.
